@@ -283,9 +283,11 @@ partial def parseIExpr (toks : List String) : Option (IExpr × List String) :=
 
 structure DSt where
   T : Tables := ⟨[], [], [], [], []⟩
-  cfg : Cfg := ⟨10000, true, false, [], none, true, true⟩
+  cfg : Cfg := ⟨10000, true, false, [], none, true, true, true⟩
   toolsLower : List (String × List Nat) := []
   seed : Nat := 0
+  /-- per registered tool name: (version of the body currently registered, the body always raises) -/
+  toolMeta : List (String × (Nat × Bool)) := []
   ros : Float := 0.0
   maxRos : Float := 1.0
 
@@ -308,23 +310,73 @@ def outcomeTag : Outcome → String
   | .result false _ true _ => "o:fail-ros"
   | .result false _ false _ => "o:fail-guard"
 
+/-- the scripted environment with the tool bodies registered right now: a body is identified by its version (mixed
+    into its scripted result), and may be a body that always raises -/
+def envOf (st : DSt) : Env :=
+  let e := scriptEnv st.seed
+  { e with tool := fun n args kws =>
+      match st.toolMeta.lookup n with
+      | some (ver, raises) =>
+        if raises then .error "ToolError"
+        else if ver = 0 then e.tool n args kws
+        else
+          let r := hashKws (mix (encVals (mix (mix (mix st.seed 300) (hashStr n)) (1000 + ver)) args) 99) kws
+          if r % 8 = 0 then .error "TracerError" else .ok (.h r)
+      | none => e.tool n args kws }
+
+def showActV (st : DSt) : Act → String
+  | .tool n args kws =>
+    let v := match st.toolMeta.lookup n with | some (ver, _) => ver | none => 0
+    "tl:" ++ hexOfStr n ++ (if v = 0 then "" else s!"@{v}") ++ ":" ++ ";".intercalate (showVals args) ++ ":" ++ showKws kws
+  | a => showAct a
+
+def showTraceV (st : DSt) (t : List Act) : String := "{" ++ "|".intercalate (t.map (showActV st)) ++ "}"
+
+def regTool (st : DSt) (hn hl caps beh : String) : DSt :=
+  let n := strOfHex hn
+  let reg : ToolReg := ⟨n, splitComma caps⟩
+  let tools := if st.cfg.tools.any (·.name = n) then st.cfg.tools.map (fun t => if t.name = n then reg else t)
+               else st.cfg.tools ++ [reg]
+  let tl := (st.toolsLower.filter (·.1 ≠ n)) ++ [(n, decodeCps hl)]
+  let raises := beh.front = 'x'
+  let ver := natD ((((beh.drop 1).toString.splitOn ":").headD "0"))
+  { st with cfg := { st.cfg with tools := tools }, toolsLower := tl,
+            toolMeta := (n, (ver, raises)) :: st.toolMeta.filter (·.1 ≠ n) }
+
 def step (st : DSt) (toks : List String) : DSt × String :=
   match toks with
   | ["tables", b, u, c, bo, n] =>
     ({ st with T := ⟨parsePairs binOfName b, parsePairs unOfName u, parsePairs cmpOfName c,
                      (splitComma bo).filterMap boolOfName, (splitComma n).map strOfHex⟩ }, "ok")
-  | ["cfg", seed, silent, rn, rd, tz, pit, dit, maxLen, allowed] =>
+  | "cfg" :: seed :: silent :: rn :: rd :: tz :: pit :: dit :: maxLen :: allowed :: rest =>
     let al := if allowed = "none" then none else some (splitComma allowed)
+    let sg := match rest with | [x] => boolOf x | _ => true
     ({ st with seed := natD seed, ros := 0.0, maxRos := Float.ofNat (natD rn) / Float.ofNat (natD rd 1),
-               toolsLower := [],
-               cfg := ⟨natD maxLen, boolOf silent, boolOf tz, [], al, boolOf pit, boolOf dit⟩ }, "ok")
-  | ["tool", hn, hl, caps] =>
+               toolsLower := [], toolMeta := [],
+               cfg := ⟨natD maxLen, boolOf silent, boolOf tz, [], al, boolOf pit, boolOf dit, sg⟩ }, "ok")
+  | ["tool", hn, hl, caps] => (regTool st hn hl caps "s0", "ok")
+  | ["tool", hn, hl, caps, beh] => (regTool st hn hl caps beh, "ok")
+  | ["untool", hn] =>
     let n := strOfHex hn
-    let reg : ToolReg := ⟨n, splitComma caps⟩
-    let tools := if st.cfg.tools.any (·.name = n) then st.cfg.tools.map (fun t => if t.name = n then reg else t)
-                 else st.cfg.tools ++ [reg]
-    let tl := (st.toolsLower.filter (·.1 ≠ n)) ++ [(n, decodeCps hl)]
-    ({ st with cfg := { st.cfg with tools := tools }, toolsLower := tl }, "ok")
+    ({ st with cfg := { st.cfg with tools := st.cfg.tools.filter (·.name ≠ n) },
+               toolsLower := st.toolsLower.filter (·.1 ≠ n), toolMeta := st.toolMeta.filter (·.1 ≠ n) }, "ok")
+  | ["cleartools"] =>
+    ({ st with cfg := { st.cfg with tools := [] }, toolsLower := [], toolMeta := [] }, "ok")
+  | "dg" :: pr :: len :: _raw :: _low :: beta :: tree =>
+    match parseTree tree with
+    | none => (st, "bad-tree")
+    | some parsed =>
+      let inp : Inp := ⟨natD len, parsed, if beta = "none" then none else valOfString beta, boolOf pr⟩
+      let latched := st.ros >= st.maxRos
+      -- values of the tracer world always render as text
+      let (tr, out) := digestGlucose st.T (envOf st) st.cfg latched inp false
+      let failed := match out with | .text true => false | _ => true
+      let counted := failed && !latched && inp.len ≤ st.cfg.maxLen && out != .raised
+      let ros' := if counted then st.ros + 0.1 else st.ros
+      let head := match out with | .text true => "text:ok" | .text false => "text:fail" | .raised => "raised"
+      ({ st with ros := ros' }, s!"{head} ros={rosObs ros'} {showTraceV st tr} ## dg:{head}")
+  | ["cdg", sr, _src] =>
+    (st, if st.cfg.strGuarded || !boolOf sr then "returned ## cdg:returned" else "unknown ## cdg:unknown")
   | "met" :: forced :: pr :: len :: raw :: low :: beta :: tree =>
     match parseTree tree with
     | none => (st, "bad-tree")
@@ -332,17 +384,17 @@ def step (st : DSt) (toks : List String) : DSt × String :=
       let inp : Inp := ⟨natD len, parsed, if beta = "none" then none else valOfString beta, boolOf pr⟩
       let (d, dtag) := detect (st.toolsLower.map (·.2)) (decodeCps raw) (decodeCps low)
       let latched := st.ros >= st.maxRos
-      let (tr, out) := metabolize st.T (scriptEnv st.seed) st.cfg latched d inp (pathwayOfName forced)
+      let (tr, out) := metabolize st.T (envOf st) st.cfg latched d inp (pathwayOfName forced)
       let ros' := match out with
         | .result _ _ true _ => st.ros + 0.1
         | _ => st.ros
       let tags := [outcomeTag out] ++ (if forced = "auto" && !latched && inp.len ≤ st.cfg.maxLen then [dtag] else [])
         ++ (if latched then ["latched"] else []) ++ (if inp.len > st.cfg.maxLen then ["too-long"] else [])
-      ({ st with ros := ros' }, s!"{showOutcomeHead out} ros={rosObs ros'} {showTrace tr} ## " ++ joinSp tags)
+      ({ st with ros := ros' }, s!"{showOutcomeHead out} ros={rosObs ros'} {showTraceV st tr} ## " ++ joinSp tags)
   | "pyev" :: _src :: tree =>
     match parseTree tree with
     | some (some e) =>
-      let (tr, r) := pyEval st.T.names (scriptEnv st.seed) e
+      let (tr, r) := pyRun st.T.names (scriptEnv st.seed) e
       let head := match r with | .ok v => "ok:" ++ showVal v | .error _ => "fail"
       (st, s!"{head} {showTrace tr} ## " ++ (match r with | .ok _ => "py:ok" | .error _ => "py:fail"))
     | some none => (st, "fail {} ## py:syntax")
@@ -355,7 +407,7 @@ def step (st : DSt) (toks : List String) : DSt × String :=
       let lk : String → Val := fun n =>
         if n = "true" then Val.bool true else (if n = "false" then Val.bool false else env0.lookup n)
       let env' : Env := ⟨lk, env0.prim, env0.truthy, env0.apply, env0.tool⟩
-      let (tr, r) := (pyEval (st.T.names ++ ["true", "false"]) env' e).bind fun v =>
+      let (tr, r) := (pyRun (st.T.names ++ ["true", "false"]) env' e).bind fun v =>
         (truthyR env' v).bind fun b => R.pure (Val.bool b)
       let head := match r with | .ok v => "ok:" ++ showVal v | .error _ => "fail"
       (st, s!"{head} {showTrace tr} ## " ++ (match r with | .ok _ => "pyl:ok" | .error _ => "pyl:fail"))
